@@ -7,7 +7,7 @@ import SparseSpace.Properties.C18
 #print axioms SparseSpace.C18.split_labels_perm
 #print axioms SparseSpace.C18.split_pieces_exact
 #print axioms SparseSpace.C18.split_without_labels_perm
-#print axioms SparseSpace.C18.remove_samples_perm_partial
+#print axioms SparseSpace.C18.remove_samples_perm
 #print axioms SparseSpace.C18.remove_oob_rejects_unchanged
 #print axioms SparseSpace.C18.concatenate_samples
 #print axioms SparseSpace.C18.attrs_carried
@@ -15,8 +15,4 @@ import SparseSpace.Properties.C18
 #print axioms SparseSpace.C18.revert_restores_reachable
 #print axioms SparseSpace.C18.concat_never_refuses
 #print axioms SparseSpace.C18.concat_refuses_mismatch_counterexample
-#print axioms SparseSpace.C18.remove_duplicate_index_counterexample
-#print axioms SparseSpace.C18.dim1_array_range_counterexample
-#print axioms SparseSpace.C18.remove_nothing_drops_attrs_counterexample
-#print axioms SparseSpace.C18.alias_scaling_factor_counterexample
-#print axioms SparseSpace.C18.alias_split_labels_counterexample
+#print axioms SparseSpace.C18.pool_inplace_others_unchanged
